@@ -41,9 +41,19 @@ def gen_triple(rng, tier):
             top = 100 if r < 0.7 else (200 if r < 0.95 else 300)
         sizes = [int(rng.integers(10, top + 1)) for _ in range(3)]
     scale = float(rng.choice([1e-3, 0.1, 1, 1, 1, 10, 1e3]))
-    style = str(rng.choice(["indep", "jitter", "cluster", "grid", "mixed", "repaired", "decimal"]))
+    style = str(rng.choice(["indep", "jitter", "cluster", "grid", "mixed", "repaired", "decimal", "h0"]))
     if style == "grid":
         X, Y, Z = (gen.diagram(rng, n, "grid", scale) for n in sizes)
+    elif style == "h0":
+        # three Rips-H0-like diagrams: every class born at one common value, same number of classes (equal-size point clouds), one
+        # or two long-lived classes among many short ones
+        n0 = max(2, sizes[0] // int(rng.choice([1, 4, 10])))
+        b0 = float(rng.choice([0.0, 0.0, 1.0])) * scale
+        def h0(n):
+            dd = (rng.random(n) ** 3) * 2 * scale
+            dd[: int(rng.integers(0, 3))] *= float(rng.uniform(3, 10))
+            return np.column_stack([np.full(n, b0), b0 + dd])[rng.permutation(n)]
+        X, Y, Z = h0(n0), h0(n0), h0(n0 if rng.random() < 0.7 else n0 + 1)
     elif style == "decimal":
         sizes = [max(1, s // 6) for s in sizes]
         X, Y, Z = (gen.diagram(rng, n, "decimal", scale) for n in sizes)
@@ -109,8 +119,15 @@ def micro_case(ctx, k, rng):
     q = float(rng.choice([0.1, 0.05, 0.01, 0.2]))
     n = int(rng.integers(1, 4))
     b = rng.integers(0, 12, n) * q; d = b + rng.integers(2, 14, n) * q
+    if rng.random() < 0.25:
+        # H0-like micro pair: common birth, equal sizes, one long bar against short ones
+        n = int(rng.integers(2, 5))
+        b = np.zeros(n); d = rng.integers(1, 20, n) * q
+        d[0] = float(rng.integers(40, 120)) * q
     X = np.column_stack([b, d])
     Y = X.copy()
+    if np.all(b == 0) and n >= 2:
+        Y = np.column_stack([np.zeros(n), rng.integers(1, 20, n) * q])
     for i in range(n):
         w = int(rng.integers(0, 4)) * q * float(rng.choice([0.5, 1.0]))
         if Y[i, 1] - Y[i, 0] > 2 * w:
